@@ -70,15 +70,15 @@ CHECKS = {
             "Findings on foreign targets cannot be replayed natively on this host (engine results only). Program obligations apply only where a policy can be compiled through the public API (GOARCH amd64/386/arm/arm64). Trusted: go/packages+go/types, engine, oracle constants, solvers.",
             "per-build-target go/types constant evaluation + SMT-based symbolic execution of each target's SSA (z3 + cvc5)"),
     "C15": (MC, "4 (C15)",
-            "The real main() of cmd/sandbox is executed symbolically over every combination of failures of its environment (missing/malformed file, unpack error, parser error with or without a returned pointer, unknown syscall, every kernel answer below the real LoadFilter, exec failure; argv of 0..3): on every path exec happens only after a successful parse and a successful load, with the parsed policy, TSYNC and the flag's no_new_privs, and any failure ends in a non-zero exit without exec. Control flow is concrete per path, so the solver's role is path feasibility (kernel answers); the coverage is the exhaustive set of failure combinations.",
-            "Stubs for flag, go-ucfg, exec, os.Exit (contract: fail or deliver). That the filter survives execve and what the target observes is kernel behaviour, outside.",
+            "The real main() of cmd/sandbox is executed symbolically over every combination of failures of its environment (missing/malformed file, unpack error, parser error with or without a returned pointer, unknown syscall, every kernel answer below the real LoadFilter, exec failure; argv of 0..3): on every path exec happens only after a successful parse and a successful load, with the parsed policy, TSYNC and the flag's no_new_privs, and any failure ends in a non-zero exit without exec. However the command gets at the file (yaml.NewConfigWithFile, or os.ReadFile / os.Open + io.ReadAll, possibly behind io.LimitReader, then yaml.NewConfig), the file has a symbolic length and the target must not be run under a configuration made from less than the whole file. Control flow is concrete per path, so the solver's role is path feasibility (kernel answers); the coverage is the exhaustive set of failure combinations.",
+            "Stubs for flag, go-ucfg, os/io file reading, exec, os.Exit (contract: fail or deliver). That the filter survives execve and what the target observes is kernel behaviour, outside.",
             "symbolic execution of the real main() over all environment-failure combinations (go/ssa engine; z3 + cvc5 for path feasibility)"),
     "C16": (MC, "4 (C16)",
             "The real Parse/parseX86_64 run over L <= 2/3 symbolic lines delivered by a model scanner that may stop anywhere with or without an error. A line is an SMT string constrained only by regular-language memberships derived from the literals the current source uses; z3 5.1 decides each path's feasibility and obligations for ALL line contents: no panic, read failure => error and no partial result, findSyscallNum is only given lines of the current function and ALL of them since the previous syscall site (window completeness), every reported syscall is in the table under its name, appended lines never remove earlier results. Long listings: the symbolic lines are additionally separated by concrete filler instructions (600 in quick; 127..10000 at sizes around powers of two, and three symbolic lines 260 apart, in thorough), so windows, counters and buffers of a few hundred or thousand lines are crossed. The scanner model stops with no error, an arbitrary error, or bufio.ErrTooLong (Scanner.Buffer moves the limit, it does not remove it).",
             "findSyscallNum (regexp + ParseInt) is summarised as 'arbitrary number or error'; alphabet = printable ASCII + space + tab; L symbolic lines bounded (no induction over the number of lines; filler lines are concrete). String obligations are decided by z3 5.1.0 alone (no cross-check).",
             "SMT string/regular-language solving over symbolic lines with the real parser executed from go/ssa (z3 5.1)"),
     "C17": (MC, "4 (C17)",
-            "The real doObjdump is executed twice over a model file system whose file contents are SMT strings. Run 1 may crash at any stub call (every file open for writing keeps a symbolic-length prefix of what was written) or its disassembler may fail after a prefix; run 2 is uninterrupted, for the same or another binary. z3 decides for all hashes, disassembly texts and crash prefixes: whenever run 2 returns a path, the file there is hash + newline + the complete disassembly; otherwise it returned an error. 'Same profile as a cold cache' follows because the profile is a function of that file. Disassembler failures are an *exec.ExitError with any exit code (-1: killed by a signal) or another error. The cache key is covered by a lemma on the real hashBinary (model hash, failing open/read): without an error it returns the digest of the whole binary or nothing of 64 characters; the two-run instances cover any 64-hex-digit key and the empty key in either run.",
+            "The real doObjdump is executed twice over a model file system whose file contents are SMT strings. Run 1 may crash at any stub call (every file open for writing keeps a symbolic-length prefix of what was written) or its disassembler may fail after a prefix; run 2 is uninterrupted, for the same or another binary. z3 decides for all hashes, disassembly texts and crash prefixes: whenever run 2 returns a path, the file there is hash + newline + the complete disassembly; otherwise it returned an error. 'Same profile as a cold cache' follows because the profile is a function of that file. Disassembler failures are an *exec.ExitError with any exit code (-1: killed by a signal) or another error. The cache key is covered by a lemma on the real hashBinary (model hash, failing open/read): without an error it returns the digest of the whole binary or nothing of 64 characters; the two-run instances cover any 64-hex-digit key and the empty key in either run. The model file system has realistic names (cache file <base>-<hash>, temporaries <that>.tmp<n>); filepath.Glob runs the real matching over them, io.ReadFull goes through the Read model, and after a crash point nothing is removed, renamed or written any more (a dead process runs no deferred calls).",
             "Crash model: a process crash leaves a prefix of the sequentially written data, rename is atomic; no power-loss/fsync reasoning, no concurrent runs. File system, bufio.Writer and exec are harness models (~200 lines). String queries are decided by z3 4.8.12 / 5.1.0 (first definite answer, no independent cross-check).",
             "SMT string solving (concatenation/prefix/length classes) over a two-run history of the real cache code with symbolic crash points (z3)"),
     "C18": (MC, "4 (C18)",
